@@ -115,7 +115,9 @@ impl Control {
     pub fn add_source(&mut self, name: &str) -> Source {
         let mut p = self.0.add_paragraph();
         p.set("Source", name);
-        self.source().unwrap()
+        // the paragraph just added, which is not the first one with a Source
+        // field when the file already had one
+        Source(p)
     }
 
     /// Add new binary package
